@@ -102,6 +102,7 @@ func TestStoreC03C04C05(t *testing.T) {
 		var s []*mocrelay.Event
 		var history []*mocrelay.Event
 		var trace []storeStep
+		var pending []*mocrelay.Event
 		left := 0 // events that have left the store so far
 		sawReplace, sawEvict, sawDeletionHit := false, false, false
 		c03nontriv := false
@@ -111,8 +112,14 @@ func TestStoreC03C04C05(t *testing.T) {
 
 		for i := 0; i < steps; i++ {
 			var e *mocrelay.Event
-			op := rapid.IntRange(0, 19).Draw(t, "op")
+			op := rapid.IntRange(0, 20).Draw(t, "op")
+			if len(pending) == 0 && op == 20 {
+				pending = cfg.DrawBurst(t)
+			}
 			switch {
+			case len(pending) > 0:
+				e, pending = pending[0], pending[1:]
+				op = 1
 			case op < 10 || len(world.Events) == 0:
 				e = cfg.DrawEvent(t)
 				op = 0
